@@ -61,6 +61,7 @@ Next == \/ \E p \in 1..4 : Interp(p)
         \/ \E p \in 3..5 : InterpCluster(p)
         \/ \E p \in 1..3 : \E n \in 3..(MaxApproxPts - 1) : Approx(p, n)
         \/ \E pu \in 1..3 : \E pv \in 1..2 : \E mv \in 2..3 : InterpSurf(pu, pv, mv)
+        \/ InterpSurf(1, 1, 4)            \* 5 columns of data: room for a least-squares fit with fewer control points than the default
 Spec == Init /\ [][Next]_vars
 \* averaged knots satisfy the Schoenberg-Whitney conditions: the collocation matrix is non-singular
 T_SW == out.op = "interp_curve" => out.sw /\ (out.N # <<>> => SWKnots(out.p, out.kv, out.uk)) /\ ValidKV(out.kv) /\ Len(out.kv) = Len(out.pts) + out.p + 1
